@@ -3,6 +3,7 @@ import UF.Proofs.ShortcutRuns
 import UF.Proofs.RegexFast
 import UF.Model.RegexParse
 import UF.Proofs.RegexCiPrefix
+import UF.Proofs.RegexQuirkLits
 /-
   C05 — the shortcut pre-check never rejects a request the rule accepts.
   Property theorems only (helper lemmas live in UF/Proofs/Regex.lean, Shortcut.lean, ShortcutBytes.lean).
@@ -171,8 +172,14 @@ theorem c05_regex_model (ext : Ext) (r : NetRule) (q : Request) (parts : List By
         | none => rw [hp] at ht; simp at ht
         | some t =>
           rw [hp] at ht
-          refine ⟨t, ?_, by simpa [searchFast_eq] using ht⟩
-          intro t' ht'; cases ht'; exact litsCovered_refl t
+          -- the compiled expression is Go's tree of the text (`goTree`: the textbook tree up to the
+          -- fold flags `parser.factor` mixes up); it requires what the textbook tree requires
+          cases hg : goTree inner t with
+          | none => rw [Option.bind_some, hg] at ht; simp at ht
+          | some c =>
+            rw [Option.bind_some, hg] at ht
+            refine ⟨c, ?_, by simpa [searchFast_eq] using ht⟩
+            intro t' ht'; cases ht'; exact litsCovered_goTree hg
 
 /-- Mask rules, part 1: the `IndexAny` loop of `findShortcut` never panics (its slice expressions are
     checked in the model) … -/
